@@ -40,6 +40,7 @@ class Klass:
         self.class_consts = dict(d.get('class_consts', {}))
         self.methods = dict(d.get('methods', {}))
         self.ghost_on_construct = dict(d.get('ghost_on_construct', {}))
+        self.subclass_methods = list(d.get('subclass_methods', []))   # subclasses (same module) whose objects share this heap class
 
 
 def klass(qualname):
@@ -110,6 +111,11 @@ def find_method(eng, k, name):
                 nxt = mod.classes[b]
                 break
         ci = nxt
+    # methods only a declared subclass defines (its objects live in this heap class)
+    for sub in getattr(k, 'subclass_methods', []):
+        sci = mod.classes.get(sub)
+        if sci is not None and name in sci.methods:
+            return sci.methods[name]
     return None
 
 
